@@ -15,7 +15,7 @@ hooks_commits = conf.get("hook_commits", [])
 GOENV = "GOFLAGS=-mod=mod GOPROXY=off GOSUMDB=off GOTOOLCHAIN=local"
 m = {
  "version": 1,
- "setup_cmd": f"cd /verif/harness && {GOENV} go test -c -tags verif -o /verif/.build/props.test ./props/ && {GOENV} go test -c -race -tags verif -o /verif/.build/props.race.test ./props/",
+ "setup_cmd": "PLACEHOLDER",
  "hooks": {
   "guard": "verif",
   "enable": "go build tag: every check builds /repo (through the harness module's replace directive) with `go test -tags verif`; verif_hooks_on.go is compiled only with the tag, verif_hooks_off.go (empty inline stubs) without it",
@@ -49,5 +49,26 @@ for p in props:
         m["checks"].append(e)
     else:
         m["not_applicable"].append({"property_id": pid, "reason": na.get(pid, "check not built yet in this session (planned: see DESIGN.md §3 " + pid + "); not claimed until its check exists and is silent on the unchanged tree")})
+# setup: pre-build every test binary the claimed checks use (the driver rebuilds from /repo's tree on every run anyway;
+# this only warms the Go build cache so that the first check does not pay for it)
+pkgs = {}
+for pid, c in conf["checks"].items():
+    for tier in ("quick", "thorough"):
+        tc = dict(c.get("all", {})); tc.update(c.get(tier, {}))
+        pkgs.setdefault(tc.get("pkg", "props"), set()).add(bool(tc.get("race", False)))
+cmds = ["mkdir -p /verif/.build", "cd /verif/harness"]
+for pkg in sorted(pkgs):
+    for race in sorted(pkgs[pkg]):
+        out = f"/verif/.build/{pkg}{'.race' if race else ''}.test"
+        cmds.append(f"{GOENV} go test -c {'-race ' if race else ''}-tags verif -o {out} ./{pkg}/")
+m["setup_cmd"] = " && ".join(cmds)
+m["engines"] = []
+for pkg in sorted(pkgs):
+    ids = sorted(pid for pid, c in conf["checks"].items() if (dict(c.get("all", {}), **c.get("quick", {}))).get("pkg", "props") == pkg)
+    m["engines"].append({"name": pkg, "path": f"/verif/harness/{pkg}", "serves_properties": ids,
+        "kind_free_text": "Go test package: one rapid (pgregory.net/rapid v1.3.0) property / bounded enumeration / fault or schedule sweep per property id, run by /verif/check; oracles are the independent reference codec (refmqtt), reference topic matcher (reftopic), session model (hist) or a differential / invariant stated in the check"})
+for e in m["checks"]:
+    c = conf["checks"][e["property_id"]]
+    e["engine"] = (dict(c.get("all", {}), **c.get("quick", {}))).get("pkg", "props")
 json.dump(m, open(os.path.join(V, "MANIFEST.json"), "w"), indent=1)
 print("claimed", len(m["checks"]), "not_applicable", len(m["not_applicable"]))
